@@ -42,3 +42,7 @@ VARIANTS += [
     v("c04-p-half", A, "            if p:\n                ds_out, sgrid = xarray.apply_ufunc(\n                    ops.ws2doptvp,", "            if p and p != 0.5:\n                ds_out, sgrid = xarray.apply_ufunc(\n                    ops.ws2doptvp,", names="kernel selection", note="seeded C04a"),
     v("c04-twin-p-notnone", A, "            if p:\n                ds_out, sgrid = xarray.apply_ufunc(\n                    ops.ws2doptvp,", "            if p is not None:\n                ds_out, sgrid = xarray.apply_ufunc(\n                    ops.ws2doptvp,", expect="silent"),
 ]
+
+VARIANTS += [
+    v("c04-early-break", V, "            if v[i] < vmin:\n                vmin = v[i]\n                k = i\n", "            if v[i] < vmin:\n                vmin = v[i]\n                k = i\n            elif v[i] > 2 * vmin:\n                break\n", names="R-ARGMIN"),
+]
